@@ -24,7 +24,7 @@ import random
 import weakref
 from typing import Any, Dict, List, Optional
 
-from . import djc, prog as P, tlc
+from . import djc, prog as P, provrefs, provtrace, tlc
 from .core import Check, MachineryError, workdir
 from .pool import pmap
 
@@ -121,7 +121,7 @@ def _residue() -> Dict[str, int]:
             "all_reference_ids": len(pp.all_reference_ids)}
 
 
-def _run_once(prog, at: int, exc) -> Dict[str, Any]:
+def _run_once(prog, at: int, exc, record: bool = False) -> Dict[str, Any]:
     """One top-level render with fault plan `at`; everything observed from outside."""
     from django.template import Context, Template
     PLAN.update(n=0, at=at, exc=exc, log=[])
@@ -131,6 +131,7 @@ def _run_once(prog, at: int, exc) -> Dict[str, Any]:
     ctx = Context(ctxd)
     refs = [weakref.ref(marker), weakref.ref(ctx)]
     res: Dict[str, Any] = {"err": "", "same_object": None, "msg": "", "out": None}
+    pre = provtrace.snapshot_now() if record and provtrace.start() else None
     try:
         html = Template(P.page_src(prog)).render(ctx)
         res["out"] = P.tokens(html)[0]
@@ -143,6 +144,9 @@ def _run_once(prog, at: int, exc) -> Dict[str, Any]:
         del e
     res["points"] = PLAN["n"]
     res["log"] = PLAN["log"]
+    if pre is not None:
+        provtrace.mark_end(bool(res["err"]))
+        res["ptrace"] = provtrace.project(provtrace.stop() or [], pre)
     PLAN.update(exc=None, log=[])
     del ctx, marker, ctxd
     gc.collect()
@@ -155,7 +159,7 @@ def fault_case(prog) -> Dict[str, Any]:
     """Dry run + every fault index + a reference render after each failure."""
     P.reset_library_state()
     _install(prog)
-    dry = _run_once(prog, -1, None)
+    dry = _run_once(prog, -1, None, record=True)
     out = {"dry": dry, "faults": []}
     if dry["err"]:
         P.reset_library_state()
@@ -163,7 +167,7 @@ def fault_case(prog) -> Dict[str, Any]:
     n = dry["points"]
     for i in range(1, n + 1):
         exc = _exc(i + prog["id"])
-        r = _run_once(prog, i, exc)
+        r = _run_once(prog, i, exc, record=True)
         r["exc_kind"] = type(exc).__name__
         del exc
         after = _run_once(prog, -1, None)       # every later render behaves as if nothing happened
@@ -280,6 +284,16 @@ def body(chk: Check, *, n_programs: int, deep: int, machine: bool = True, mc_nod
                     "fault_indices_enumerated": len(r["faults"])}, limit=2)
     if machine:
         validate_traces(chk, traces)
+    # code -> spec, operation level: every call of the provide / inject reference counting made by the dry run and by
+    # every fault run, validated step by step against ProvideRefs.tla (vf/provtrace.py, Trace_ProvideRefs.tla)
+    ptr = []
+    for p, r in traces:
+        for name, run in [("dry", r["dry"])] + [(f"fault{i}", f) for i, f in enumerate(r["faults"], start=1)]:
+            if run.get("ptrace") is not None and len(run["ptrace"]["events"]) > 1:
+                ptr.append(({"program": djc.brief(p), "json": p, "run": name}, run["ptrace"]))
+    if ptr:
+        st = provrefs.validate(chk, ptr, "fault")
+        chk.add("traces_validated_against_impl", st["validated"])
 
 
 def model_check_machine(chk: Check) -> None:
